@@ -154,6 +154,23 @@ def check_iwv_2d(idx, block, pos, negative):
             ex.close(g, r, iwv_tol(r, len(idx))) for g, r in zip(got, refs)):
         return ("integrate_water_vapor/axis", [float(r) for r in refs], got,
                 "")
+    # the general form (vmr, p, T, z) on the same block: level arrays 1-D
+    # when the levels are the last axis, full-shape otherwise
+    a = stack(cols, pos)
+    p, t, z = pick(P_NODES, idx), pick(T_NODES, idx), pick(Z_NODES, idx)
+    if pos == 0:
+        p, t, z = (np.broadcast_to(v[:, None], a.shape).copy()
+                   for v in (p, t, z))
+    got = ex.call(atm().integrate_water_vapor, a, p, t, z,
+                  axis=pos - 2 if negative else pos)
+    pl, tl, zl = (pick(n, idx).tolist() for n in (P_NODES, T_NODES, Z_NODES))
+    refs = [ex.trapezoid(ex.fractions(zl), [
+        Fraction(v) * Fraction(pi) / (Fraction(RV) * Fraction(ti))
+        for v, pi, ti in zip(c, pl, tl)]) for c in cols]
+    if np.shape(got) != (len(cols),) or not all(
+            ex.close(g, r, iwv_tol(r, len(idx))) for g, r in zip(got, refs)):
+        return ("integrate_water_vapor/general-form-axis",
+                [float(r) for r in refs], got, "")
     return None
 
 
